@@ -207,8 +207,13 @@ func writeSTL(wg *sync.WaitGroup, path string) (chan<- []*sdf.Triangle3, error) 
 
 		var count uint32
 		var d STLTriangle
+		var werr error
 		// read triangles from the channel and write them to the file
 		for ts := range c {
+			if werr != nil {
+				// keep draining the channel so the renderer is not blocked
+				continue
+			}
 			for _, t := range ts {
 				n := t.Normal()
 				d.Normal[0] = float32(n.X)
@@ -224,14 +229,21 @@ func writeSTL(wg *sync.WaitGroup, path string) (chan<- []*sdf.Triangle3, error) 
 				d.Vertex3[1] = float32(t[2].Y)
 				d.Vertex3[2] = float32(t[2].Z)
 				if err := binary.Write(buf, binary.LittleEndian, &d); err != nil {
-					fmt.Printf("%s\n", err)
-					return
+					werr = err
+					break
 				}
 				count++
 			}
 		}
+		if werr != nil {
+			fmt.Printf("%s\n", werr)
+			return
+		}
 		// flush the triangles
-		buf.Flush()
+		if err := buf.Flush(); err != nil {
+			fmt.Printf("%s\n", err)
+			return
+		}
 
 		// back to the start of the file
 		if _, err := f.Seek(0, 0); err != nil {
